@@ -2104,7 +2104,7 @@ def _solve(ti):
     return ti, str(r), time.time() - t0, mv
 
 
-def _run_tasks(n, jobs, hard_cap_s):
+def _run_tasks(n, jobs, hard_cap_s, groups=None):
     """one forked child per query (inherits the formulas), hard wall-clock cap enforced by kill:
     z3's own timeout is soft and nlsat can overrun it by minutes."""
     import os
@@ -2113,6 +2113,7 @@ def _run_tasks(n, jobs, hard_cap_s):
     results = []
     pending = list(range(n))
     running = {}   # fd -> (pid, ti, t0, buf)
+    decided = set()   # groups (obligation, case) already answered by one strategy: siblings are cancelled
     while pending or running:
         while pending and len(running) < max(1, jobs):
             ti = pending.pop(0)
@@ -2135,6 +2136,8 @@ def _run_tasks(n, jobs, hard_cap_s):
         rl, _, _ = select.select(list(running), [], [], 0.5)
         now = time.time()
         for fd in list(running):
+            if fd not in running:
+                continue
             pid, ti, t0, buf = running[fd]
             done = False
             if fd in rl:
@@ -2160,7 +2163,23 @@ def _run_tasks(n, jobs, hard_cap_s):
                 del running[fd]
                 if data:
                     try:
-                        results.append(pickle.loads(data))
+                        out = pickle.loads(data)
+                        results.append(out)
+                        if groups is not None and out[1] in ('sat', 'unsat'):
+                            g = groups[ti]
+                            decided.add(g)
+                            for t2 in [t for t in pending if groups[t] == g]:
+                                pending.remove(t2)
+                                results.append((t2, 'skipped', 0.0, None))
+                            for fd2 in [f for f in running if groups[running[f][1]] == g]:
+                                try:
+                                    os.kill(running[fd2][0], 9)
+                                    os.waitpid(running[fd2][0], 0)
+                                except OSError:
+                                    pass
+                                os.close(fd2)
+                                results.append((running[fd2][1], 'skipped', now - running[fd2][2], None))
+                                del running[fd2]
                         continue
                     except Exception:   # noqa
                         pass
@@ -2204,13 +2223,17 @@ def discharge(eng, obls, timeout_ms=60000, axioms=(), jobs=8, max_cases=4096, mo
                 owner.append((oi, 0))
             o.cases = 1
     _TASKS, _TMO, _AX, _INPUTS = tasks, timeout_ms, tuple(axioms), eng.inputs
-    results = _run_tasks(len(tasks), jobs, timeout_ms / 1000.0 * 1.15 + 3.0)
+    import os as _os
+    results = _run_tasks(len(tasks), jobs, timeout_ms / 1000.0 * 1.15 + 3.0,
+                         None if _os.environ.get('VF_CROSSCHECK') else owner)
     # portfolio of two z3 strategies per query (default tactic pipeline / plain SMT core): a case is decided
     # by whichever answers; contradictory answers make the obligation inconclusive
     per_case = {}
     for ti, r, dt, mv in results:
         oi, ci = owner[ti]
         c = per_case.setdefault((oi, ci), {'sat': 0, 'unsat': 0, 'unknown': 0, 'secs': 0.0, 'mv': None})
+        if r == 'skipped':
+            continue
         c[r if r in ('sat', 'unsat') else 'unknown'] += 1
         c['secs'] += dt
         if mv is not None and c['mv'] is None:
